@@ -466,6 +466,9 @@ class Circuit:
         output_mode = self._map_mode(output_mode)
         self._mode_in_range(input_mode)
         self._mode_in_range(output_mode)
+        # Store modes as plain integers (the range check also accepts other
+        # integral values, which the compiler would later refuse)
+        input_mode, output_mode = int(input_mode), int(output_mode)
         # Check if herald already used on input or output
         if input_mode in self.__in_heralds:
             raise ValueError("Heralding already set for chosen input mode.")
